@@ -312,6 +312,8 @@ def _main(engine_cls, script, holder):
     ap.add_argument("--max-runs", type=int, default=None)
     ap.add_argument("--workers", type=int, default=None)
     args = ap.parse_args()
+    if args.replay:
+        args.replay = os.path.abspath(args.replay)
     ensure_env()
     try:
         core.setup_repo_imports()
